@@ -77,6 +77,40 @@ def Stack.putFailing (s : Stack) (b : Beacon) : Stack × PutRes :=
   | .ok => (s, .badRound)     -- reported by the driver as "err-write"; the state is unchanged
   | r => (s, r)
 
+/-- `schemeStore.Put` over a base store that may REFUSE the write (`baseOk = false`: a transient storage error, a Put issued
+under a cancelled context). The statements in the order of the code (regenerated: `Gen.schemePutOrder`): the
+previous-signature check, the underlying `Put`, `return err` on its error, and only then `a.last = b`. `none` = the
+write error of the store below. -/
+def Stack.schemePutB (s : Stack) (b : Beacon) (baseOk : Bool) : Stack × Option PutRes :=
+  if s.chained then
+    if s.schemeLast.sig ≠ b.prev then (s, some .badPrev)
+    else if !baseOk then (s, none)
+    else ({ s with base := Bolt.put s.base b, schemeLast := b, appendLast := b }, some .ok)
+  else
+    let b' : Beacon := { b with prev := [] }
+    if !baseOk then (s, none)
+    else ({ s with base := Bolt.put s.base b', schemeLast := b', appendLast := b' }, some .ok)
+
+/-- `appendStore.Put` on top of it (`if err := a.Store.Put(ctx, b); err != nil { return err }; a.last = b`) -/
+def Stack.putB (s : Stack) (b : Beacon) (baseOk : Bool) : Stack × Option PutRes :=
+  if b.round = s.appendLast.round then
+    if s.appendLast.sig = b.sig then
+      if s.appendLast.prev = b.prev then (s, some .already) else (s, some .dupDiffPrev)
+    else (s, some .dupDiffSig)
+  else if b.round ≠ s.appendLast.round + 1 then (s, some .badRound)
+  else s.schemePutB b baseOk
+
+/-- the other statement order (`a.last = b` BEFORE the underlying Put): what the retry theorem excludes -/
+def Stack.schemePutLastFirst (s : Stack) (b : Beacon) (baseOk : Bool) : Stack × Option PutRes :=
+  if s.chained then
+    if s.schemeLast.sig ≠ b.prev then (s, some .badPrev)
+    else if !baseOk then ({ s with schemeLast := b }, none)
+    else ({ s with base := Bolt.put s.base b, schemeLast := b, appendLast := b }, some .ok)
+  else
+    let b' : Beacon := { b with prev := [] }
+    if !baseOk then ({ s with schemeLast := b' }, none)
+    else ({ s with base := Bolt.put s.base b', schemeLast := b', appendLast := b' }, some .ok)
+
 inductive Op where
   | put (b : Beacon)
   | restart
